@@ -11,7 +11,7 @@ RULE = ("One scenario in each of 10 contexts {plain scenario, outline row} x {no
         "at the feature level, the rule level or both, followed by a sibling scenario; ALL outcome sequences over {pass, fail, error, pending, "
         "undefined, skip, kbi, convert} (and converters raising KeyError / AssertionError / RuntimeError; step functions raising a SUBCLASS of "
         "AssertionError / StepNotImplementedError / KeyboardInterrupt and the builtin NotImplementedError, i.e. the superclass of the pending class) of length <= 3 (quick) / <= 4 (thorough; 5 in the plain context), background steps "
-        "drawing outcomes too; x {@wip} x {dry-run} x {continue_after_failed_step} x {sync, async step functions (async: length <= 2 in quick)}. Oracle: "
+        "drawing outcomes too; x {@wip on the scenario; for sequences with a pending step also @wip inherited from the feature, the rule or the examples block} x {dry-run} x {continue_after_failed_step} x {sync, async step functions (async: length <= 2 in quick)}. Oracle: "
         "predicted call log (which step function, in which scenario, in which order, inherited background first) and "
         "predicted status of every step from the reference interpreter. Histories: the same model object run 2 (3) times "
         "with a different outcome table per run must end with the statuses of a fresh object run with the last table. "
@@ -29,28 +29,33 @@ def build(kind, nbg, seq, wip):
     """kind "P<mask>" = outline row whose inherited background steps are parametrised (<oK> placeholders, bit k of
     mask = k-th background level): the background outcomes then travel through extra examples columns"""
     own = tuple(seq[nbg:])
-    tags = ("wip",) if wip else ()
+    # wip: 1 = @wip on the scenario / outline itself, 2 = inherited from the FEATURE, 3 = inherited from the RULE
+    # (contexts with two background levels), 4 = on the examples block (outline rows)
+    tags = ("wip",) if wip == 1 else ()
+    ftags = ("wip",) if wip == 2 else ()
+    rtags = ("wip",) if wip == 3 else ()
+    extags = ("wip",) if wip == 4 else ()
     sib = P.S(("pass",))
     if kind.startswith("P"):
         mask = int(kind[1:])
         n = len(own)
         row = own + tuple(seq[:nbg])
-        item = P.O((row,), tags, ncols=len(row))
+        item = P.O((row,), tags, ncols=len(row), extags=extags)
         # the outline's own steps use columns 0..n-1; parametrised background level k uses column n+k
         bgs = [("<o%d>" % (n + k)) if mask >> k & 1 else seq[k] for k in range(nbg)]
         sib = P.O((("pass",) * len(row),), ncols=len(row))
         item = ("O", item[1], n, item[3])
         sib = ("O", sib[1], n, sib[3])
         if nbg == 1:
-            return (P.F((item, sib), bg=(bgs[0],)),)
-        return (P.F((P.R((item, sib), bg=(bgs[1],)),), bg=(bgs[0],)),)
-    item = P.S(own, tags) if kind == "S" else P.O((own,), tags, ncols=len(own))
+            return (P.F((item, sib), bg=(bgs[0],), tags=ftags),)
+        return (P.F((P.R((item, sib), bg=(bgs[1],), tags=rtags),), bg=(bgs[0],), tags=ftags),)
+    item = P.S(own, tags) if kind == "S" else P.O((own,), tags, ncols=len(own), extags=extags)
     if nbg == 0:
-        f = P.F((item, sib))
+        f = P.F((item, sib), tags=ftags)
     elif nbg == 1:
-        f = P.F((item, sib), bg=(seq[0],))
+        f = P.F((item, sib), bg=(seq[0],), tags=ftags)
     else:
-        f = P.F((P.R((item, sib), bg=(seq[1],)),), bg=(seq[0],))
+        f = P.F((P.R((item, sib), bg=(seq[1],), tags=rtags),), bg=(seq[0],), tags=ftags)
     return (f,)
 
 
@@ -100,6 +105,19 @@ def cases(tier):
                     yield (kind, nbg, seq, wip, dry, cafs, 0)
                     if L <= (2 if quick else 3) and not dry:
                         yield (kind, nbg, seq, wip, dry, cafs, 1)      # async step functions
+    # @wip INHERITED from the feature / the rule / the examples block (effective tags, not own tags)
+    for L in (1, 2, 3):
+        for seq in itertools.product(("pass", "pending", "fail", "undefined"), repeat=L):
+            if "pending" not in seq or (L == 3 and quick and seq.count("pass") < 1):
+                continue
+            for kind, nbg in CONTEXTS:
+                if L < nbg or (L == nbg and kind != "S"):
+                    continue
+                for wipl in (2, 3, 4):
+                    if (wipl == 3 and nbg != 2) or (wipl == 4 and kind == "S"):
+                        continue
+                    for dry, cafs in ((0, 0), (0, 1), (1, 0)):
+                        yield (kind, nbg, seq, wipl, dry, cafs, 0)
     if not quick:
         for seq in itertools.product(OUT8[:6], repeat=5):
             yield ("S", 0, seq, 0, 0, 0, 0)
